@@ -203,6 +203,8 @@ pub enum FnModel {
     Nested,
     /// a tuple -> its length; anything else -> the library's own ExpectedTuple error
     NeedsTuple,
+    /// fails with FunctionIdentifierNotFound(<that other name>), as a function does that evaluates something itself
+    FailNotFound(&'static str),
 }
 
 pub fn apply_fn_model(name: &str, m: &FnModel, arg: &Value) -> Result<Value, EvalexprError> {
@@ -245,6 +247,7 @@ pub fn apply_fn_model(name: &str, m: &FnModel, arg: &Value) -> Result<Value, Eva
             Value::Tuple(t) => Ok(Value::Int(t.len() as i64)),
             other => Err(EvalexprError::expected_tuple(other.clone())),
         },
+        FnModel::FailNotFound(inner) => Err(EvalexprError::FunctionIdentifierNotFound(inner.to_string())),
     }
 }
 
